@@ -396,15 +396,17 @@ def check_config(run, cfg, n_workers, R, table, max_live_seeds, tier, which=None
             done = {p for k, p in obs["events"] if k == "end"}
             stuck = not (obs.get("returned") or obs.get("raised"))
             incomplete = obs.get("returned") and {p for p in live} != {p for k, p in obs.get("at_return", []) if k == "end"}
-            if ov or stuck or incomplete:
+            # no callback fails in these runs: a walk that RAISES instead of returning has not "then returned" either
+            failed = (not obs.get("returned")) and bool(obs.get("raised"))
+            if ov or stuck or incomplete or failed:
                 text = ("# schedule + liveness pattern found by the solver, replayed on the real Pyramid.walk with a deterministic thread scheduler\n"
                         "import sys\nsys.path.insert(0, %r)\nimport props.C01 as P\nfrom toasty.pyramid import Pos\n"
                         "cfg = {c.name: c for c in (P.S1, P.S2, P.S2W, P.S3)}[%r]\nobs = P.replay_walk(cfg, %r, %d, %r)\n"
                         "live = P.live_closure(cfg, %r)\nov = P.order_violation(obs['events'], cfg, live)\nprint(obs['events'], obs.get('returned'), ov)\n"
-                        "bad = bool(ov) or not (obs.get('returned') or obs.get('raised')) or {p for k, p in obs.get('at_return', []) if k == 'end'} != live\nsys.exit(1 if bad else 0)\n"
+                        "bad = bool(ov) or not obs.get('returned') or {p for k, p in obs.get('at_return', []) if k == 'end'} != live\nsys.exit(1 if bad else 0)\n"
                         ) % (str(__import__("vlib.core").core.VERIF), cfg.name, live_seeds, n_workers, trace, live_seeds)
                 run.violation(nm, "walk:%s" % qn, "parallel walk: %s; real run under the solver's schedule (live seeds %s): %s%s%s" % (
-                    what, [tuple(p) for p in live_seeds], ov or "", " HANGS" if stuck else "", " returned with unprocessed tiles" if incomplete else ""),
+                    what, [tuple(p) for p in live_seeds], ov or "", " HANGS" if stuck else "", (" returned with unprocessed tiles" if incomplete else "") + ((" walk() RAISES although no callback failed: %s" % obs.get("raised")) if failed else "")),
                     text, "E3:bmc+detsched", queries=1, solver_s=dt)
             else:
                 run.error(nm, "solver schedule did not reproduce on the real code: live=%s events=%s returned=%s drive=%s" % (live_seeds, obs["events"], obs.get("returned"), obs["drive"][:3]))
